@@ -462,7 +462,11 @@ pub fn judge(spec: &RunSpec, exp: &Expect, obs: &Observed) -> Vec<Violation> {
         push("hang", "the CLI did not terminate within the watchdog".into(), json!({}));
         return v;
     }
-    let failure_expected = exp.failure.is_some() || !hard.is_empty();
+    // A request the contract itself rejects must fail. Under an injected hard
+    // fault the tool may fail -- or recover (retry, fall back to another way of
+    // writing) and succeed: then it is held to the success side in full. What
+    // it may never do is claim success without having delivered everything.
+    let failure_expected = exp.failure.is_some() || (!hard.is_empty() && obs.exit != Some(0));
     let is_expected_output = |p: &str, content: &[u8]| exp.outputs.get(p).map(|d| d.as_slice() == content).unwrap_or(false);
 
     // --- file system effects, common to both directions: every file is either
@@ -585,7 +589,13 @@ pub fn judge(spec: &RunSpec, exp: &Expect, obs: &Observed) -> Vec<Violation> {
         for (p, want) in &exp.outputs {
             match obs.after.get(p) {
                 Some(Node::File(c)) if c == want => {}
-                Some(Node::File(_)) => {} // reported above as wrong_output
+                Some(node @ Node::File(c)) => {
+                    // a changed file with wrong content was reported above; an
+                    // UNCHANGED one (a stale output left in place) is reported here
+                    if obs.before.get(p) == Some(node) {
+                        push("wrong_output", format!("{}: pre-existing content left in place; {}", p, describe_diff(c, want)), json!({"state": "stale-unchanged"}));
+                    }
+                }
                 _ => push("missing_output", format!("{} was not written", p), json!({})),
             }
         }
